@@ -297,7 +297,7 @@ def judge_group(ctx: common.Ctx, g: dict[str, Any], res: dict[str, Any]) -> None
             by_part.setdefault((plans[rid]["vid"], plans[rid]["cls"]), []).append(rid)
     for (vid, cls), ids in by_part.items():
         sigs = {json.dumps([(w, k, got) for w, k, got, _ in bads[i]], sort_keys=True, default=str) for i in ids}
-        if len(sigs) == 1 and bads[ids[0]]:
+        if len(sigs) == 1 and bads[ids[0]] and len({plans[i]["src"] for i in ids}) >= 2:
             uniform.update(ids)
             where, key, got, want = bads[ids[0]][0]
             ctx.cell("value-transformed-identically-by-all-sources")
@@ -538,8 +538,8 @@ def run(ctx: common.Ctx) -> None:
     if scale < 1:
         rng.shuffle(cases)
         cases = cases[: max(8, int(len(cases) * scale))]
-    ctx.exhaustive = scale >= 1
-    ctx.extra["precedence_space"] = {"patterns": pats, "max_sections": 4 if not quick else 3, "formats": fmts, "layer_variants": 4,
+    # only the precedence space is finite and enumerated completely (when VERIF_SCALE >= 1); option values are representatives
+    ctx.extra["precedence_space"] = {"enumerated_completely": scale >= 1, "patterns": pats, "max_sections": 4 if not quick else 3, "formats": fmts, "layer_variants": 4,
                                      "module_names": len(names), "cases_total": total_cases, "cases_run": len(cases)}
     e2e_pool = [c for c in cases if len(c["sections"]) >= 2]
     rng2 = common.rng_for("C17", "e2e")
@@ -571,6 +571,7 @@ def run(ctx: common.Ctx) -> None:
                 "config_accepts_but_internal_not_judged": tab["config_accepts_undocumented_internal"]}
             n_groups = 0
             walls: list[tuple[float, str, int]] = []
+            harness_errors: list[str] = []
 
             only = os.environ.get("VERIF_C17_ONLY", "")  # development aid: run one part only (floors then make the run inconclusive)
 
@@ -598,26 +599,33 @@ def run(ctx: common.Ctx) -> None:
                     if r.get("tb"):
                         ctx.extra.setdefault("runner_errors", []).append(r["tb"][-600:])
                     continue
-                if t["_kind"] == "equiv":
-                    walls.append((round(r.get("wall", 0), 1), t["_group"]["dest"], len(t["_group"]["runs"])))
-                    judge_group(ctx, t["_group"], r["res"])
-                else:
-                    judge_prec(ctx, t, r["res"])
+                try:  # never abandon the pool iterator half-way (its threads would keep restarting workers)
+                    if t["_kind"] == "equiv":
+                        walls.append((round(r.get("wall", 0), 1), t["_group"]["dest"], len(t["_group"]["runs"])))
+                        judge_group(ctx, t["_group"], r["res"])
+                    else:
+                        judge_prec(ctx, t, r["res"])
+                except Exception:
+                    import traceback
+                    harness_errors.append(traceback.format_exc()[-1500:])
     ctx.extra["slowest_option_groups"] = sorted(walls, reverse=True)[:8]
+    if harness_errors:
+        print(harness_errors[0])
+        raise RuntimeError(f"{len(harness_errors)} harness error(s) while judging (not a verdict on the code under test)")
     # every part must have been observed: a run in which one part vanished (timeouts, dead workers) is not "held"
     done = {"groups": ctx.cells.get("option-groups-judged", 0), "prec": ctx.cells.get("prec:cases", 0), "e2e": ctx.cells.get("e2e:cases", 0)}
     want = {"groups": n_groups, "prec": len(cases), "e2e": len(e2e_cases)}
     ctx.extra["parts"] = {"done": done, "planned": want}
     part_missing = [k for k in want if not os.environ.get("VERIF_C17_ONLY") and done[k] < 0.6 * want[k]]
     # floors: ~40% of what the unchanged tree yields
-    # (unchanged tree, scale 1: quick ~74k evaluations / ~12.5k distinct non-trivial; thorough see report)
+    # (unchanged tree, scale 1: quick ~74k evaluations / ~12.5k distinct non-trivial; thorough ~1.4M / ~240k)
     f = min(scale, 1.0) * (0.5 if scale < 1 else 1.0)
     if quick:
         ctx.floor_evaluations = int(30000 * f)
         ctx.floor_nontrivial = int(5000 * f)
     else:
-        ctx.floor_evaluations = int(300000 * f)
-        ctx.floor_nontrivial = int(60000 * f)
+        ctx.floor_evaluations = int(500000 * f)
+        ctx.floor_nontrivial = int(90000 * f)
     if part_missing:
         ctx.inconc("part-incomplete:" + ",".join(part_missing))
         ctx.floor_evaluations = 10 ** 9
